@@ -71,7 +71,7 @@ def run(ctx):
 
 
 def replay(ctx, rep):
-    sc.replay_case(ctx, rep, CLAUSES)
+    sc.replay_case(ctx, rep, CLAUSES, extra_sig=xsig, accept=accept)
 
 
 if __name__ == "__main__":
